@@ -136,6 +136,25 @@ func isPtrValue(v ssa.Value) bool {
 	return true
 }
 
+// rootAlloc: the Alloc an address expression is rooted at (through field / index addressing), if any.
+func rootAlloc(v ssa.Value) *ssa.Alloc {
+	for {
+		switch t := v.(type) {
+		case *ssa.Alloc:
+			return t
+		case *ssa.FieldAddr:
+			v = t.X
+		case *ssa.IndexAddr:
+			if _, isSlice := types.Unalias(t.X.Type()).Underlying().(*types.Slice); isSlice {
+				return nil
+			}
+			v = t.X
+		default:
+			return nil
+		}
+	}
+}
+
 func (p *Program) direct(fn *ssa.Function) *directInfo {
 	if d, ok := p.directCache[fn]; ok {
 		return d
@@ -165,6 +184,8 @@ func (p *Program) direct(fn *ssa.Function) *directInfo {
 						_, hs2 := p.addrRootHeap(in.Addr)
 						addFresh(hs2)
 					}
+				} else if ra := rootAlloc(in.Addr); ra != nil && !fr.isCell[ra] {
+					addFresh(hs)
 				} else {
 					add(hs)
 				}
@@ -420,6 +441,8 @@ func (p *Program) loopMods(x *Exec, fr *Frame, h *ssa.BasicBlock) ([]string, []s
 							add(hs2)
 						}
 					}
+				} else if ra := rootAlloc(in.Addr); ra != nil && !fr.isCell[ra] && body[ra.Block()] {
+					addFresh(hs)
 				} else {
 					add(hs)
 				}
